@@ -207,6 +207,16 @@ let handle line =
       let (ls, e) = scan_lines (str_of_hex p) in
       (match e with ScanEOF -> "eof" | ScanTooLong -> "too_long") ^ " " ^
       (match ls with [] -> "-" | _ -> String.concat "," (List.map (fun l -> match l with [] -> "_" | _ -> hex_of_str l) ls))
+  | ["msplit"; doc] ->
+      let (bs, ok) = split_doc (str_of_hex doc) in
+      (if ok then "ok" else "err") ^ " " ^
+      (match bs with [] -> "-" | _ -> String.concat "," (List.map (fun l -> match l with [] -> "_" | _ -> hex_of_str l) bs))
+  | ["mgen"; ld; li; md; mi; block] ->
+      (match gen_block (str_of_hex block) with
+       | BRoot None -> "ok none"
+       | BRoot (Some t) -> "ok t" ^ hex_of_str (render (bf_of ld li md mi) [t])
+       | BErr -> "err -"
+       | BPanic -> "panic -")
   | _ -> "badcase"
 
 let () =
